@@ -288,7 +288,79 @@ func (e *Engine) opaqueCall(st *State, ci *callInfo) []multiOut {
 		}
 	}
 	e.emit(st, ev)
+	if e.Policy.WalkFuncArgs != nil && ci.callee != nil && e.Policy.WalkFuncArgs(ci.callee) {
+		var fvs []*Val
+		for _, a := range ci.args {
+			if a == nil {
+				continue
+			}
+			if a.Kind == KAlloc && len(a.Elems) > 0 {
+				fvs = append(fvs, a.Elems...)
+			} else {
+				fvs = append(fvs, a)
+			}
+		}
+		for _, fv := range fvs {
+			ev.Sub = append(ev.Sub, e.walkFuncArg(st, ci, fv)...)
+		}
+	}
 	return []multiOut{{st, rs}}
+}
+
+// walkFuncArg walks a function value handed to an opaque callee, with unknown arguments, on a copy of the state.
+func (e *Engine) walkFuncArg(st *State, outer *callInfo, fv *Val) []*Path {
+	if fv == nil {
+		return nil
+	}
+	var (
+		ft     *ast.FuncType
+		body   *ast.BlockStmt
+		lit    *ast.FuncLit
+		recv   *ast.FieldList
+		callee *types.Func
+	)
+	switch fv.Kind {
+	case KClosure:
+		if fv.Lit == nil {
+			return nil
+		}
+		lit, ft, body = fv.Lit, fv.Lit.Type, fv.Lit.Body
+	case KFuncRef:
+		fn, ok := fv.Obj.(*types.Func)
+		if !ok {
+			return nil
+		}
+		fd := e.Decls[fn.Origin()]
+		if fd == nil || fd.Body == nil || st.frame.active(fn.Origin()) {
+			return nil
+		}
+		ft, body, recv, callee = fd.Type, fd.Body, fd.Recv, fn.Origin()
+	default:
+		return nil
+	}
+	cp := st.clone()
+	base := len(cp.Events)
+	cp.frame = &Frame{Parent: st.frame, Depth: st.frame.Depth}
+	inner := &callInfo{st: cp, call: outer.call, callee: callee, recv: fv.Recv}
+	if lit != nil {
+		inner.fn = fv
+	}
+	if ft.Params != nil {
+		for _, f := range ft.Params.List {
+			k := len(f.Names)
+			if k == 0 {
+				k = 1
+			}
+			for i := 0; i < k; i++ {
+				inner.args = append(inner.args, e.newVal(KHavoc, e.Info.TypeOf(f.Type), f.Pos()))
+			}
+		}
+	}
+	var out []*Path
+	for _, o := range e.inlineBody(cp, inner, recv, ft, body, lit, false, false) {
+		out = append(out, &Path{Events: o.st.Events[base:], Trace: o.st.Trace, Unsup: o.st.Unsup, st: o.st, Panic: o.st.ctrl == cPanic})
+	}
+	return out
 }
 
 func (e *Engine) pureCall(st *State, ci *callInfo) []multiOut {
